@@ -7,6 +7,8 @@ PROP = "C18"
 
 def judge(c, r):
     """returns None or a description of the disagreement"""
+    if r.get("skipped"):
+        return None
     if r.get("hang") or r.get("crash"):
         return "hang/crash %s" % r
     for k, (want, got) in enumerate(zip(c["outcome"], r["panics"])):
